@@ -8,7 +8,7 @@ Files are rewritten only when their content changes, so Lean's build cache stays
 """
 import os, re, sys
 
-REPO = os.environ.get("ELVIS_REPO", "/repo")
+REPO = os.environ.get("ELVIS_REPO") or os.path.normpath(os.path.join(os.path.dirname(os.path.abspath(__file__)), "..", "..", "repo"))
 CORE = os.path.join(REPO, "sim", "elvis-core", "src")
 ELVIS = os.path.join(REPO, "sim", "elvis", "src")
 OUT = os.path.join(os.path.dirname(os.path.abspath(__file__)), "..", "lean", "ElvisVerif", "Generated")
